@@ -26,10 +26,15 @@ import (
 	"verif/vinstr"
 )
 
-const (
-	verifDir = "/verif"
-	repoDir  = "/repo"
-)
+const repoDir = "/repo"
+
+// verifDir is /verif; background runs from a snapshot (vp run) set VERIF_DIR.
+var verifDir = func() string {
+	if d := os.Getenv("VERIF_DIR"); d != "" {
+		return d
+	}
+	return "/verif"
+}()
 
 type workerOut struct {
 	Property    string        `json:"property"`
